@@ -222,9 +222,18 @@ class MetadataManager:
                         and validated_info is not None
                         and parsed[1] != validated_info[1]
                     ):
-                        raise ConcurrentModificationException(
-                            "Version hint changed between validation and the commit point; retrying"
-                        )
+                        if self.storage.exists(f"{self.metadata_path}/{parsed[1]}"):
+                            raise ConcurrentModificationException(
+                                "Version hint changed between validation and the commit point; retrying"
+                            )
+                        # The hint names a file that does not exist (dangling, or a
+                        # legacy/garbled number): nobody flipped it - a committer only
+                        # ever points it at a file it has written - and validation
+                        # resolved the current version by scanning. Treating this as a
+                        # conflict made every commit fail forever; replace exactly this
+                        # dangling pointer (the conditional PUT is keyed to its ETag)
+                        # and number the new version after the validated one.
+                        filesystem_version, previous_metadata_file = validated_info
                 if filesystem_version is None:
                     info = self._current_version_info()
                     if info is not None:
